@@ -32,6 +32,8 @@ fn hist<T: CellT + std::hash::Hash>(seed: u64, histories: usize, steps: usize, m
     let mut rng = Rng(seed);
     let noarg = json!({"z": 0});
     for h in 0..histories {
+        // progress marker: if the code under test kills the process, the driver knows in which history
+        println!("H {h}");
         tdverif::ledger::reset();
         tdverif::canary::reset();
         let mut m: Machine<T> = Machine::new((h % 3) as u8);
@@ -47,8 +49,21 @@ fn hist<T: CellT + std::hash::Hash>(seed: u64, histories: usize, steps: usize, m
             e["case"] = json!(h);
             events.push(e);
         };
-        // constructor
-        let (nc, nr) = if rng.chance(15) { (0, 0) } else { (1 + rng.below(maxdim), 1 + rng.below(maxdim)) };
+        // constructor; one history in four starts from a LARGE array (a long dimension, hundreds to thousands of cells):
+        // size-gated code paths ("fast paths" above some length) are invisible on small shapes
+        let large = rng.chance(25);
+        let (nc, nr) = if large {
+            let a = 13 + rng.below(118);
+            // often only a few lines in the other direction, so that histories reach "last line removed" on long lines
+            let b = if rng.chance(45) { 1 + rng.below(3) } else { 1 + rng.below((2600 / a).clamp(1, 40)) };
+            if rng.chance(50) { (a, b) } else { (b, a) }
+        } else if rng.chance(15) {
+            (0, 0)
+        } else {
+            (1 + rng.below(maxdim), 1 + rng.below(maxdim))
+        };
+        let maxdim = if large { 140 } else { maxdim };
+        let steps = if large { steps.min(14) } else { steps };
         let a = json!({"nc": nc, "nr": nr, "items": fresh(nc * nr, &mut next_id)});
         let r = m.call("from_vec", &a, &[nc, nr], LenMode::True);
         emit(&m, "from_vec", &a, &r, &mut events);
@@ -72,7 +87,8 @@ fn hist<T: CellT + std::hash::Hash>(seed: u64, histories: usize, steps: usize, m
                     _ => rng.below(n + 1) as u64,
                 }
             };
-            let choice = rng.below(22);
+            // large arrays: structural calls only (that is where size-gated paths live), and shrink as often as grow
+            let choice = if large { [0, 2, 4, 5, 6, 6, 7, 7, 8, 8, 9, 9, 13, 30, 30][rng.below(15)] } else { rng.below(22) };
             let (op, a): (&str, Value) = match choice {
                 0 | 1 => {
                     let n = if c == 0 { 1 + rng.below(maxdim) } else if rng.chance(8) { c + 1 } else { c };
@@ -98,6 +114,8 @@ fn hist<T: CellT + std::hash::Hash>(seed: u64, histories: usize, steps: usize, m
                 17 => ("swap", json!({"c1": idx(c.saturating_sub(1), &mut rng), "r1": idx(r_.saturating_sub(1), &mut rng),
                                       "c2": idx(c.saturating_sub(1), &mut rng), "r2": idx(r_.saturating_sub(1), &mut rng)})),
                 18 => if rng.chance(30) { ("fill", json!({"v": fresh(1, &mut next_id)[0]})) } else { ("reserve", json!({"k": rng.below(9)})) },
+                // spare capacity of one or two whole lines (large histories)
+                30 => ("reserve", json!({"k": c.max(r_) * (1 + rng.below(2))})),
                 19 => if rng.chance(20) { ("clear", noarg.clone()) } else { ("clone", noarg.clone()) },
                 20 => {
                     let (sc, sr) = (rng.below(c + 1), rng.below(r_ + 1));
@@ -143,6 +161,7 @@ fn hist<T: CellT + std::hash::Hash>(seed: u64, histories: usize, steps: usize, m
         for e in events {
             writeln!(out, "{}", e).unwrap();
         }
+        out.flush().unwrap();
     }
 }
 
